@@ -20,6 +20,7 @@ open Zio
      net  <network> nsched tid*nsched
           -> observation after each step separated by " | " (+ "DISABLED pos" if the thread scheduled at pos is
              not enabled in the model) " # " T|N (all threads finished?) <outcome code> <enabled tids...>
+     netcover <network>   -> "<cover_b> <init_ok_b>" (premises of the shutdown theorem)
      netx <network> maxstates
           -> breadth-first enumeration of the reachable states:
              nstates nedges truncated nfinal ndeadlock ; {summary of a final/deadlock state x count : schedule reaching it}*
@@ -50,7 +51,7 @@ let read_thread = function
 
 let read_list = function n :: r -> (List.map nat_of_int (take n r), drop n r) | _ -> failwith "list"
 
-let read_net l =
+let read_net_raw l =
   match l with
   | nmb :: r ->
       let (boxes, r) = read_n nmb read_mb r in
@@ -68,11 +69,15 @@ let read_net l =
                  | main :: r ->
                      let nt = { n_fault = fault; n_cfault = cfault; n_kill = kill; n_join = join; n_savers = sav;
                                 n_f1 = (f1 <> 0); n_f2 = (f2 <> 0); n_f3 = (f3 <> 0) } in
-                     (nt, ninit nt boxes threads, List.length threads, main, r)
+                     (nt, boxes, threads, main, r)
                  | _ -> failwith "main")
             | _ -> failwith "faults")
        | _ -> failwith "nth")
   | _ -> failwith "nmb"
+
+let read_net l =
+  let (nt, boxes, threads, main, r) = read_net_raw l in
+  (nt, ninit nt boxes threads, List.length threads, main, r)
 
 let obs_str nt st = String.concat " " (List.map (fun z -> string_of_int (int_of_z z)) (nobs nt st))
 let enabled_tids nt st n = List.filter (fun t -> nenabled nt st (nat_of_int t)) (List.init n (fun i -> i))
@@ -166,6 +171,11 @@ let handle toks =
       (match r with
        | ns :: sched -> run_net nt st0 n main (take ns sched)
        | _ -> "BAD")
+  | "netcover" :: rest ->
+      (* the decidable premises of C06_noticed_failure_shuts_down on this network: "1 1" = both hold *)
+      let (nt, boxes, threads, main, _) = read_net_raw (ints rest) in
+      let st = { mbs = boxes; ths = threads } in
+      Printf.sprintf "%d %d" (if cover_b nt st (nat_of_int main) then 1 else 0) (if init_ok_b boxes threads then 1 else 0)
   | "netdigest" :: rest ->
       let (nt, st0, n, main, r) = read_net (ints rest) in
       Digest.to_hex (Digest.string (Marshal.to_string (nt, st0) [Marshal.No_sharing])) ^ " " ^ string_of_int main
